@@ -587,6 +587,12 @@ def quick_configs():
         # and the wakes differ with the currents): the residual is evaluated for EACH bunch from its own recorded
         # profile and wake; same numerics as the q64 runs, so no further reference run
         _cfg("q64-coll-2bunches-4mA-1.5mA", "collimator", 64, 100, [4e-3, 1.5e-3], collimator_radius=0.005),
+        # grids shifted DIFFERENTLY in position and energy (both signs): the RF kick is written in cells and is the focusing
+        # force -tan(dtheta) q only on square cells (C05_rf_kick_natural_units); a mesh-width ratio != 1 puts a term
+        # (delta_E/delta_q - 1) q^2/2 into the residual of the run AND of its reference run (judged by the bound on range(R_ref))
+        _cfg("q64-coll-4mA-shift-5+3", "collimator", 64, 100, 4e-3, collimator_radius=0.005,
+             opts={"PhaseSpaceShiftX": -5, "PhaseSpaceShiftY": 3}),
+        _cfg("q64-pp-2mA-shift+4-6", "csr-pp", 64, 100, 2e-3, opts={"PhaseSpaceShiftX": 4, "PhaseSpaceShiftY": -6}),
     ]
 
 
